@@ -124,7 +124,8 @@ func decodePkixName(name string) (*pkix.Name, []byte, error) {
 // UnmarshalJSON implements the json.Unmarshaler interface
 func (entry *Entry) UnmarshalJSON(b []byte) error {
 	aux := &record{}
-	if err := json.Unmarshal(b, &aux); err != nil {
+	// Pass the pointer itself: with &aux a JSON null would set aux to nil.
+	if err := json.Unmarshal(b, aux); err != nil {
 		return err
 	}
 	schemaSeconds := int64(aux.Schema) / 1000
